@@ -178,7 +178,7 @@ theorem cold_logonHyp {s : Sess} {m : InMsg} (hc : Cold s) (hm : Late m) (hk : k
   onLogon := fun _ ht _ => absurd ht (cold_noTimeGate hc hm)
   ro := Or.inl cold_resetOK
 
-theorem shutdownWithReason_latent (s : Sess) (b : Bool) : (shutdownWithReason s b).2 = .latent := rfl
+theorem shutdownWithReason_latent (s : Sess) (m : InMsg) (b : Bool) : (shutdownWithReason s m b).2 = .latent := rfl
 
 theorem cold_logonFixMsgIn {s : Sess} {m : InMsg} (hc : Cold s) (hm : Late m) :
     RelF coldObs (fun _ _ => True) s (logonFixMsgIn s m).1 ∧ (logonFixMsgIn s m).2 = .latent := by
